@@ -359,7 +359,12 @@ _poll_add_(struct qb_loop *l,
 		*pe_pt = pe;
 		return 0;
 	} else {
-		pe->state = QB_POLL_ENTRY_EMPTY;
+		/*
+		 * Nothing of the failed registration may stay behind: an
+		 * empty slot that still names the descriptor would be found
+		 * by qb_loop_poll_del/mod instead of the real entry.
+		 */
+		_poll_entry_empty_(pe);
 		return res;
 	}
 }
